@@ -5,6 +5,8 @@ pub mod c02;
 pub mod c03;
 pub mod c04;
 pub mod c05;
+pub mod c06;
+pub mod c07;
 pub mod c08;
 pub mod c09;
 pub mod c10;
@@ -14,6 +16,7 @@ pub mod c13;
 pub mod c14;
 pub mod c15;
 pub mod c16;
+pub mod c17;
 pub mod c18;
 
 pub fn all() -> Vec<Box<dyn PropDyn>> {
@@ -23,6 +26,8 @@ pub fn all() -> Vec<Box<dyn PropDyn>> {
         Box::new(c03::prop()),
         Box::new(c04::prop()),
         Box::new(c05::prop()),
+        Box::new(c06::prop()),
+        Box::new(c07::prop()),
         Box::new(c08::prop()),
         Box::new(c09::prop()),
         Box::new(c10::prop()),
@@ -32,6 +37,7 @@ pub fn all() -> Vec<Box<dyn PropDyn>> {
         Box::new(c14::prop()),
         Box::new(c15::prop()),
         Box::new(c16::prop()),
+        Box::new(c17::prop()),
         Box::new(c18::prop()),
     ]
 }
